@@ -21,10 +21,10 @@ def gen_case(rnd, profile="mixed", size="small"):
         return gen_boundary(rnd)
     if profile == "compete":
         return gen_compete(rnd)
-    three = rnd.random() < 0.5
+    three = rnd.random() < 0.5 or profile == "multipair"
     syms = ["BTC", "USD"] + (["ETH"] if three else [])
     pairs = [["BTC", "USD"]] + ([["ETH", "USD"]] if three else [])
-    if three and rnd.random() < 0.35:
+    if three and rnd.random() < (0.35 if profile != "multipair" else 0.8):
         pairs.append(["ETH", "BTC"])
     usd_p = rnd.choice([2, 2, 2, 0, 1, 4])
     btc_p = rnd.choice([0, 2, 4, 8, 8, 3]) if profile != "limitpartial" else rnd.choice([0, 0, 1, 2])
@@ -136,7 +136,7 @@ def gen_case(rnd, profile="mixed", size="small"):
     for k in range(nb):
         t = 60 * (k + 1)
         for pi in range(len(pairs)):
-            if k > 0 and rnd.random() < 0.15:
+            if k > 0 and rnd.random() < (0.15 if profile != "multipair" else 0.05):
                 continue                              # this pair has no bar at this time
             qp = prec_of(pi)[1]
             tick = F(1, 10 ** qp)
@@ -180,7 +180,7 @@ def gen_case(rnd, profile="mixed", size="small"):
                 if profile == "limitpartial":
                     kind = rnd.choice(["limit", "limit", "stoplimit", "market"])
                 op = rnd.choice(["buy", "sell"])
-                tp = rnd.randrange(len(pairs)) if rnd.random() < 0.2 else pi
+                tp = rnd.randrange(len(pairs)) if rnd.random() < (0.2 if profile != "multipair" else 0.7) else pi
                 bp, qp = prec_of(tp)
                 tick = F(1, 10 ** qp)
                 amt = rnd.choice([1, 1, 2, 5, F(1, 2), F(1, 4), F(15, 10), 10, F(1, 10 ** bp), 3, 100])
